@@ -574,8 +574,21 @@ func (o *objectGoReflect) reflectValue() reflect.Value {
 
 func (o *objectGoReflect) setReflectValue(v reflect.Value) {
 	o.fieldsValue = v
-	o.origValue = v
+	if o.origValue.Kind() == reflect.Ptr {
+		// element wrappers are created from a pointer to the element: stay one (Export(), Stringer, error)
+		o.origValue = v.Addr()
+	} else {
+		o.origValue = v
+	}
 	o.methodsValue = v.Addr()
+	// wrappers of nested compound fields handed out earlier must follow
+	for name, w := range o.valueCache {
+		if f := o._getField(name); f.IsValid() {
+			w.setReflectValue(f)
+		} else {
+			delete(o.valueCache, name)
+		}
+	}
 }
 
 func (o *objectGoReflect) esValue() Value {
